@@ -227,6 +227,10 @@ finding(
     "P80", ["C10"], "open", "a parameter whose default is a SET display (`opt={'SGD', 'sgd', 'Adam'}`): the function parser evaluates it to a Python set and the class / argparse / function emitters print it in the set's own iteration order, which changes with PYTHONHASHSEED (the JSON-schema file, which sorts the members, is stable and stays strict)",
     witnesses={"C10": [{'inputs': {'setdef0': {'src': 'def f(opt={"SGD", "sgd", "Adam", "adam", "RMSprop"}, n={3, 1, 2}, k=5):\n    """\n    Does the thing.\n\n    :param opt: the opt\n    :param n: the n\n    :param k: the k\n    """\n    return 1\n', 'style': 'rest'}}, 'scripts': [{'name': 'a', 'calls': [['function_to_class', 'setdef0']]}, {'name': 'b', 'calls': [['function_to_class', 'setdef0']]}], 'seeds': [0, 1], 'api': 'function_to_class', 'key': 'setdef0'}]},
 )
+finding(
+    "P81", ["C02"], "open", "a float / complex parameter whose default is an INTEGER literal (`clip: float = -1`): argparse re-types it to int, function formats with the `Defaults to` sentence re-type it to int (ReST) or coerce the default to -1.0 (Google) - the literal's own type competes with the declared one (found when the round-9 C02 seed made the generator draw that shape; the function format without the sentence is clean and stays strict)",
+    witnesses={"C02": [I([["a", {"typ": "float", "doc": "the a", "default": -1}]], cells=[[8, "rest", True]], int_for_float="a")]},
+)
 finding("P26", ["C07"], "open", "doctrans drops comments inside a rewritten multi-line def header")
 finding("P27", ["C07"], "open", "doctrans turns a one-line `def f(a=1): return a` into invalid Python")
 finding("P28", ["C07"], "open", "doctrans does not recognise a raw docstring r\"\"\"...\"\"\": a second string is inserted")
